@@ -492,6 +492,8 @@ impl LinkedList {
                 `tracing-core::callsite::register` once per `Callsite`."
             );
 
+            #[cfg(tokio_rs_tracing_verif)]
+            crate::callsite::__verif::yield_point("push:loaded");
             match self.head.compare_exchange(
                 head,
                 registration as *const _ as *mut _,
